@@ -4,6 +4,8 @@
 (* matrix in one of its defect classes, at most MaxDefects fields away from the     *)
 (* defaults.  Every combination is emitted and fed to the real compiler by          *)
 (* `vh c06-run`; the outcome algebra of DictBuild is explored alongside.            *)
+(* u<n>: n ASCII letters (n bytes, n UTF-16 units), w<n>: n three-byte letters - the lengths on both sides of the one-byte /    *)
+(* two-byte length prefix, where a writer and a reader that disagree produce a dictionary that was "compiled" but cannot be read  *)
 (* "wide" classes: the malformed value is longer than 32 bytes and made of multi-    *)
 (* byte characters ("mixed": after one ASCII letter), so that anything that cuts,    *)
 (* pads or quotes the offending text at a byte offset meets the middle of a character *)
@@ -15,8 +17,8 @@ FieldClasses == [
   lid    |-> {"0", "max", "size", "-1", "-2", "32767", "32768", "x", "empty", "xwide", "xmixed"},
   rid    |-> {"0", "max", "size", "-1", "32767", "x", "xwide"},
   cost   |-> {"0", "32767", "-32768", "32768", "x", "xwide", "xmixed", "huge"},
-  key    |-> {"ok", "empty", "long", "toolong", "badescape", "escape"},
-  head   |-> {"same", "other", "toolong"},
+  key    |-> {"ok", "empty", "long", "toolong", "badescape", "escape", "u126", "u127", "u128", "u129", "w127", "w128"},
+  head   |-> {"same", "other", "toolong", "u127", "u128"},
   dic    |-> {"*", "self", "other", "dangling", "uref", "neg", "xwide"},
   mode   |-> {"A", "C", "bad", "badwide"},
   splita |-> {"*", "ids", "dangling", "inline_ok", "inline_bad", "n127", "n128", "garbage", "garbagewide", "inline_wide"},
